@@ -76,7 +76,7 @@ class grow:
         ("last_end", "self.chunks[len(self.chunks) - 1].end == self.capacity"),
         ("tail", "tailfree(self) == old(tailfree(self)) + capacity"),
         ("params_kept", "self.default_alignment == old(self.default_alignment) and self.grow_step == old(self.grow_step)"),
-        ("prefix_kept", "forall(0, old(len(self.chunks)), lambda i: implies(i < old(len(self.chunks)) - 1, self.chunks[i] is old(self.chunks[i]) and self.chunks[i].start == old(self.chunks[i].start) and self.chunks[i].end == old(self.chunks[i].end)))"),
+        ("prefix_kept", "forall(0, old(len(self.chunks)), lambda i: implies(i < old(len(self.chunks)) - 1, same_obj(self.chunks[i], old(self.chunks[i])) and self.chunks[i].start == old(self.chunks[i].start) and self.chunks[i].end == old(self.chunks[i].end)))"),
         ("last_kept", "implies(old(len(self.chunks)) > 0, self.chunks[old(len(self.chunks)) - 1].start == old(self.chunks[len(self.chunks) - 1].start) and self.chunks[old(len(self.chunks)) - 1].end >= old(self.chunks[len(self.chunks) - 1].end))"),
         ("len", "len(self.chunks) >= old(len(self.chunks)) and len(self.chunks) <= old(len(self.chunks)) + 1"),
     ]
@@ -158,3 +158,65 @@ class free:
             ("freed_somewhere", "exists(0, len(newchunks), lambda j: newchunks[j].start <= offset and offset + size <= newchunks[j].end) or exists(_i1, len(_it1), lambda i: _it1[i].start <= offset and offset + size <= _it1[i].end)"),
         ]},
     }
+
+
+@reg.contract(CTX, "XBuffer._make_context")
+class _make_context:
+    """abstract; both CPU subclasses return ContextCpu() whose minimum_alignment is 1"""
+    params = {"self": "XBuffer"}
+    ensures = [("pow2", "pow2(result.minimum_alignment)")]
+    result = "Context"
+    status = "assumed"
+
+
+@reg.contract(CTX, "XBuffer.__init__")
+class init:
+    params = {"self": "XBuffer", "capacity": "int", "context": "opt[Context]", "default_alignment": "opt[int]", "grow_step": "opt[int]"}
+    ghost = {"Live": ("pred", 2)}
+    requires = [
+        ("cap", "capacity >= 0"),
+        ("ctx", "context is None or pow2(context.minimum_alignment)"),
+        ("al", "default_alignment is None or pow2(default_alignment)"),
+        ("gs", "grow_step is None or grow_step > 0"),
+        ("no_live", "forall_int(lambda o, s: not Live(o, s))"),
+    ]
+    ensures = INV + [
+        ("LivePair", "LivePair(Live)"),
+        ("cap", "self.capacity == capacity"),
+        ("one_chunk", "len(self.chunks) == 1 and self.chunks[0].start == 0 and self.chunks[0].end == capacity"),
+        ("gs", "self.grow_step == grow_step"),
+        ("al", "implies(default_alignment is not None, self.default_alignment == default_alignment)"),
+    ]
+    properties = ["C04", "C12"]
+
+
+# ---- history induction: the operation contracts re-establish the invariants for the updated set of live regions
+@reg.lemma("alloc_step")
+class alloc_step:
+    """after allocate: Live2 = Live + {(result,size)} satisfies every invariant (so they hold after every history)"""
+    params = {"self": "XBuffer", "result": "int", "size": "int"}
+    ghost = {"Live": ("pred", 2), "Live2": ("pred", 2)}
+    requires = INV + [
+        ("LivePair", "LivePair(Live)"),
+        ("in_bounds", "0 <= result and size >= 0 and result + size <= self.capacity"),
+        ("new_vs_live", "region_free_of_live(result, size, Live)"),
+        ("new_vs_free", "region_free_of_chunks(self, result, size)"),
+        ("def", "forall_int(lambda o, s: iff(Live2(o, s), Live(o, s) or (o == result and s == size)))"),
+    ]
+    ensures = [("WF", "WF(self)"), ("LiveIn", "LiveIn(self, Live2)"), ("LiveSep", "LiveSep(self, Live2)"), ("LivePair", "LivePair(Live2)")]
+    properties = ["C04"]
+
+
+@reg.lemma("free_step")
+class free_step:
+    """free's precondition follows from the invariants for Live = Live2 + {(offset,size)}: a live region may be freed"""
+    params = {"self": "XBuffer", "offset": "int", "size": "int"}
+    ghost = {"Live": ("pred", 2), "Live2": ("pred", 2)}
+    requires = [("WF", "WF(self)"), ("LiveIn", "LiveIn(self, Live)"), ("LiveSep", "LiveSep(self, Live)"), ("LivePair", "LivePair(Live)"),
+                ("is_live", "Live(offset, size)"),
+                ("def", "forall_int(lambda o, s: iff(Live2(o, s), Live(o, s) and not (o == offset and s == size)))")]
+    ensures = [("size_nonneg", "size >= 0"), ("in_bounds", "0 <= offset and offset + size <= self.capacity"),
+               ("was_live_vs_free", "region_free_of_chunks(self, offset, size)"),
+               ("was_live_vs_live", "region_free_of_live(offset, size, Live2)"),
+               ("LiveIn", "LiveIn(self, Live2)"), ("LiveSep", "LiveSep(self, Live2)"), ("LivePair", "LivePair(Live2)")]
+    properties = ["C04"]
